@@ -1238,9 +1238,9 @@ func TestVerifC13(t *testing.T) {
 		nk, nv, L int
 		excl      bool
 	}
-	exs := []ex{{2, 2, 4, false}, {2, 2, 4, true}, {3, 2, 3, false}, {1, 2, 5, false}}
+	exs := []ex{{2, 2, 5, false}, {2, 2, 4, true}, {3, 2, 4, false}, {3, 2, 3, true}, {1, 2, 6, false}}
 	if kit.Thorough() {
-		exs = []ex{{2, 2, 5, false}, {2, 2, 5, true}, {3, 2, 4, false}, {3, 2, 4, true}, {1, 2, 6, false}, {1, 3, 5, true}}
+		exs = []ex{{2, 2, 6, false}, {2, 2, 5, true}, {3, 2, 5, false}, {3, 2, 4, true}, {1, 2, 7, false}, {1, 3, 6, true}, {2, 3, 5, false}}
 	}
 	const batch = 300
 	for _, e := range exs {
@@ -1279,11 +1279,11 @@ func TestVerifC13(t *testing.T) {
 		})
 	}
 
-	kit.Run(t, "C13", "random", kit.N(1400, 60000), func(c *kit.Case) { randomHistory(c, false) })
+	kit.Run(t, "C13", "random", kit.N(6000, 150000), func(c *kit.Case) { randomHistory(c, false) })
 	// keys never change their value in place (delete + put instead): every other clause
 	// of the statement on histories that cannot reach the known update-in-place defect
-	kit.Run(t, "C13", "random-noupdate", kit.N(1400, 60000), func(c *kit.Case) { randomHistory(c, true) })
-	kit.Run(t, "C13", "resolver-large", kit.N(120, 3000), largeResolverHistory)
-	kit.Run(t, "C13", "reconnect", kit.N(16, 320), reconnectHistory)
+	kit.Run(t, "C13", "random-noupdate", kit.N(5000, 120000), func(c *kit.Case) { randomHistory(c, true) })
+	kit.Run(t, "C13", "resolver-large", kit.N(400, 8000), largeResolverHistory)
+	kit.Run(t, "C13", "reconnect", kit.N(24, 480), reconnectHistory)
 	kit.End()
 }
